@@ -1,5 +1,96 @@
-"""C12 - Colours survive the trip through their raw representation  (metadata; generators live here and/or in props/C12_*.py parts)"""
-CLAIMED = False   # set True by the owner once ./check C12 passes with real theorems
+"""C12 - Colours survive the trip through their raw representation."""
+from common import *
+import colorgen
+
+CLAIMED = True
 LEVEL = 'proof'
-LEVEL_TEXT = 'TODO'
-LEVEL_NOTE = 'TODO'
+LEVEL_TEXT = ('Proof: 14 Coq theorems, each quantified over every row of the colour table that translate/gen_colors.py regenerates '
+              'from core/src/pixelcolor/*.rs on every run (14 types: BinaryColor, Gray2/4/8, 10 RGB/BGR types; their raw types, '
+              'storage widths, channel widths, the Rgb/Bgr position arms of the macro, byte slices) and over ALL integer values: '
+              'colour->raw->colour is the identity, the raw value fits BITS_PER_PIXEL, raw->colour->raw equals `v & ones(used bits)` '
+              'for every storage value v and is idempotent, new(r,g,b) keeps each channel modulo 2^width and r()/g()/b()/luma() '
+              'return it, a colour is determined by its channels, RGB types have red in the most significant used bits and BGR types '
+              'blue (to_raw(new(r,g,b)) as an explicit sum, accessors as div/mod), the type name states the format (Rgb565 = 5/6/5), '
+              'into_storage / to_be_bytes / to_le_bytes denote the same number with ceil(bpp/8) bytes, BinaryColor Off/On <-> 0/1, '
+              'the eight named RgbColor constants have the channels their names say. '
+              'The macro bodies are transcribed once, generically (coq/Model/Colormodel.v); the proofs are general bit-field '
+              'arithmetic for any well-formed row, and well-formedness of the regenerated rows is decided by vm_compute. '
+              'The generic transcription is tied to the code by the translator\'s shape checks (it fails closed when a macro body '
+              'changes) and by running the extracted model against the real library on all values of the 8/16-bit types and '
+              'stratified values of the 24-bit types.')
+LEVEL_NOTE = ('Trusted: Coq kernel incl. vm_compute, the regex translator (reads macro rows and literal bodies; unit tests and comments '
+              'are stripped), extraction, the OCaml/Rust drivers. Rust integer semantics (`as u8`, shifts, `&`, `|` on u8/u16/u32) is '
+              'modelled by Z operations, not verified; the correspondence suites and the exhaustive p_raw/p_new search '
+              '(all 2^24 raw values and all 2^24 new() argument triples per type, against a layout table written independently in the '
+              'harness) bound that gap.')
+RULE = ('correspondence (extracted model vs real library, per colour type of the generated table): col_info = BITS_PER_PIXEL, storage bits, '
+        'byte count, MAX_R/G/B or max luma, BLACK/WHITE of the running library against the GENERATED table; col_raw = for a storage value v: '
+        'Color::from(Raw::new(v)) -> channels, Raw::from(c), into_storage, to_be_bytes, to_le_bytes: ALL storage values for u8/u16 storage, '
+        'one 255-value progression (stride 257, random offset) in each of the 256 strata of 2^16 for 24-bit types plus values with bits 24..31 set; '
+        'col_new = new() with one u8 argument sweeping 0..255 and the other two from edge/random values; named = the 8 named RgbColor constants. '
+        'search: p_raw / p_new evaluate the property predicates against the documented layout on the implementation, all 2^24 raw values and all '
+        '2^24 (r,g,b) argument triples of every type. Non-trivial = result line not empty; distinct = distinct case lines.')
+EXHAUSTIVE = {'quick': False, 'thorough': False}
+ASSUMPTIONS = ['a colour value of type t is an integer 0 <= c < 2^(used bits of t); the theorems C12_from_raw_valid / C12_new_channels / '
+               'C12_gray_new show that every public constructor yields such a value']
+TRUSTED = ['modelled, not verified: u8/u16/u32 shifts, masks and `as` casts as Z.shiftl/Z.shiftr/Z.land/Z.lor/mod 256',
+           'translate/gen_colors.py: regex reading of rgb_color!/gray_color!/impl_raw_data!/impl_to_bytes! rows, the Rgb/Bgr position arms, '
+           'literal constants; literal shape checks of the macro bodies that Model/Colormodel.v transcribes']
+PARTIAL = []
+
+EDGE8 = [0, 1, 2, 3, 7, 8, 15, 16, 31, 32, 63, 64, 127, 128, 129, 254, 255]
+
+
+def cases(tier, rng):
+    types, _ = colorgen.load()
+    names = [t[0] for t in types]
+    for n in names + [f[0] for f in colorgen.FALLBACK_TYPES if f[0] not in names]:
+        yield J('col_info', n)
+    for name, kind, sbits, bpp in types:
+        if sbits <= 16:
+            total = 2 ** sbits
+            for s in range(0, total, 256):
+                yield J('col_raw', name, s, 256, 1)
+        else:
+            reps = 1 if tier == 'quick' else 8
+            for _ in range(reps):
+                for k in range(2 ** bpp // 65536):
+                    yield J('col_raw', name, k * 65536 + rng.randrange(256), 255, 257)
+            # values with unused storage bits (above BITS_PER_PIXEL) set
+            for _ in range(16 * reps):
+                yield J('col_raw', name, rng.randrange(2 ** bpp, 2 ** sbits - 255 * 65537), 255, rng.choice([1, 257, 65537]))
+            yield J('col_raw', name, 2 ** sbits - 256, 256, 1)
+            yield J('col_raw', name, 0, 256, 1)
+            yield J('col_raw', name, 2 ** bpp - 256, 256, 1)
+        if kind == 'rgb':
+            yield J('named', name)
+            n = 8 if tier == 'quick' else 64
+            for axis in range(3):
+                yield J('col_new', name, axis, 0, 0)
+                yield J('col_new', name, axis, 255, 255)
+                for _ in range(n):
+                    yield J('col_new', name, axis, rng.choice([rng.choice(EDGE8), rng.randrange(256)]),
+                            rng.choice([rng.choice(EDGE8), rng.randrange(256)]))
+        else:
+            yield J('col_new', name, 0, 0, 0)
+
+
+def search(tier, rng):
+    types, _ = colorgen.load()
+    for name, kind, sbits, bpp in types:
+        # every raw value (through Raw::new of every storage value for u8/u16 storage)
+        if sbits <= 16:
+            yield J('p_raw', name, 0, 2 ** sbits, 1)
+        else:
+            for k in range(16):
+                yield J('p_raw', name, k * 2 ** 20, 2 ** 20, 1)
+            for _ in range(16):
+                yield J('p_raw', name, rng.randrange(2 ** bpp, 2 ** sbits - 65536 * 4099), 65536, rng.choice([1, 257, 4099]))
+            yield J('p_raw', name, 2 ** sbits - 65536, 65536, 1)
+        # every argument triple of new()
+        if kind == 'rgb':
+            yield J('p_named', name)
+            for k in range(16):
+                yield J('p_new', name, k * 16, k * 16 + 16)
+        else:
+            yield J('p_new', name, 0, 256)
